@@ -26,6 +26,7 @@ XONSH_FORMS = [
 ]
 
 PY_SNIPPETS = [
+    'x = "pip\'s"\n', "y = 'say \"p\"'\n", 'z = "P\'m" + \'q"r\'\n', 'b = rb"it\'s"\n',
     "x = 1\n", "x += 1\n", "x: int = 1\n", "a, b = b, a\n", "a = b = c\n", "del a, b[0], c.d\n", "pass\n", "x = (1, 2,)\n",
     "x = [1, *a, 2]\n", "x = {1: 2, **d}\n", "x = {1, 2}\n", "x = a if b else c\n", "x = lambda a, b=1, *c, d, e=2, **f: 0\n",
     "f(a, *b, c=1, **d)\n", "a[1:2, ::3]\n", "a.b.c(d)[e]\n", "x = a < b <= c != d\n", "x = not a and b or c\n",
